@@ -23,6 +23,7 @@ KINDS = {
     "std": (2, ["-m", "mae", "-x", "leadtime"]),
     "std5": (5, ["-m", "mae", "-x", "leadtime"]),      # more lines than entries in the style lists: each list repeats by its own length
     "stdgap": (2, ["-m", "mae", "-x", "leadtime"]),      # one lead time in the middle has no valid case (a gap in every line)
+    "qq": (2, ["-m", "qq"]),
     "loc": (2, ["-m", "mae", "-x", "location"]),
     "map": (2, ["-m", "mae", "-type", "map"]),
     "pithist": (2, ["-m", "pithist"]),
@@ -317,6 +318,16 @@ def p_sp(fig, kind, info):
     m = [l for l in ax.get_lines() if l.get_label() == "ideal"]
     if not m:
         return "no 'ideal' line"
+    if kind == "qq":
+        # the perfect score of a qq diagram is the 1:1 line: it must run along the whole visible part of the diagonal
+        xs, ys = list(m[0].get_xdata()), list(m[0].get_ydata())
+        if any(abs(x - y) > 1e-9 for x, y in zip(xs, ys)):
+            return "the 'ideal' line is not the diagonal: %s / %s" % (xs, ys)
+        lo = max(ax.get_xlim()[0], ax.get_ylim()[0])
+        hi = min(ax.get_xlim()[1], ax.get_ylim()[1])
+        if hi > lo and (min(xs) > lo + 1e-6 * (hi - lo) or max(xs) < hi - 1e-6 * (hi - lo)):
+            return "the 'ideal' diagonal spans [%g, %g] but the visible diagonal is [%g, %g]" % (min(xs), max(xs), lo, hi)
+        return None
     if any(abs(y - 0) > 1e-9 for y in m[0].get_ydata()):
         return "perfect-score line at %s, expected 0 for mae" % list(m[0].get_ydata())
 
@@ -450,8 +461,8 @@ OPTIONS = {
     "xlabel": (["-xlabel", "Xlab"], ["std", "loc", "pithist", "igncontrib", "against"], p_xlabel, None),
     "ylabel": (["-ylabel", "Ylab"], ["std", "loc", "pithist", "igncontrib", "against"], p_ylabel, None),
     "clabel": (["-clabel", "Clab"], ["map"], p_clabel, None),
-    "xlim": (["-xlim", "1,40"], ["std", "igncontrib"], p_xlim, "xl"),
-    "ylim": (["-ylim", "0.5,30"], ["std", "loc", "pithist"], p_ylim, "yl"),
+    "xlim": (["-xlim", "1,40"], ["std", "qq", "igncontrib"], p_xlim, "xl"),
+    "ylim": (["-ylim", "0.5,30"], ["std", "qq", "loc", "pithist"], p_ylim, "yl"),
     "clim": (["-clim", "1,7"], ["map"], p_clim, None),
     "xticks": (["-xticks", "0,12,24"], ["std"], p_xticks, "xt"),
     "xticklabels": (["-xticks", "0,12,24", "-xticklabels", "a,b,c"], ["std"], p_xticklabels, "xt"),
@@ -478,7 +489,7 @@ OPTIONS = {
     "gs": (["-gs", ":"], ["std", "loc", "pithist", "igncontrib", "against"], p_gs, "grid2"),
     "gw": (["-gw", "3"], ["std", "loc", "pithist", "igncontrib", "against"], p_gw, "grid3"),
     "nogrid": (["-nogrid"], ["std", "loc", "pithist", "igncontrib", "against"], p_nogrid, "nogrid"),
-    "sp": (["-sp"], ["std"], p_sp, "sp"),
+    "sp": (["-sp"], ["std", "qq"], p_sp, "sp"),
     "aspect": (["-aspect", "2"], ["std", "loc", "pithist"], p_aspect, None),
     "fs": (["-fs", "10,4"], ["std", "loc", "map", "pithist", "igncontrib", "against"], p_fs, None),
     "dpi": (["-dpi", "50"], ["std", "loc", "map", "pithist", "igncontrib", "against"], p_dpi, None),
@@ -642,7 +653,7 @@ def run_subsets(desc, ctx):
     rng = random.Random("C17-sub-%s-%s" % (desc["seed"], desc["k"]))
     df = default_failures(ctx, desc["seed"])
     for ci in range(desc["n"]):
-        kind = rng.choice(["std", "std", "std5", "stdgap", "loc", "loc", "map", "pithist", "igncontrib", "against"])
+        kind = rng.choice(["std", "std", "std5", "stdgap", "qq", "loc", "loc", "map", "pithist", "igncontrib", "against"])
         cand = [n for n in OPTIONS if kind in OPTIONS[n][1]]
         for _ in range(30):
             names = rng.sample(cand, min(len(cand), rng.randint(2, 7)))
@@ -667,7 +678,7 @@ def run_pairs(desc, ctx):
     i = 0
     for fam in FAMILIES:
         for a, b in itertools.combinations(fam, 2):
-            for kind in ("std", "std5", "stdgap", "pithist"):
+            for kind in ("std", "std5", "stdgap", "qq", "pithist"):
                 if kind not in OPTIONS[a][1] or kind not in OPTIONS[b][1] or not compatible([a, b]):
                     continue
                 i += 1
@@ -675,6 +686,11 @@ def run_pairs(desc, ctx):
                     continue
                 ctx.count("subset_runs")
                 check(ctx, kind, [a, b], desc["seed"], "p%d" % i, df)
+    if desc["k"] == 0:
+        # the three options that meet in the perfect-score diagonal
+        for trio in (["sp", "xlim", "ylim"], ["sp", "xlim"], ["sp", "ylim"]):
+            ctx.count("subset_runs")
+            check(ctx, "qq", trio, desc["seed"], "q" + "".join(t[0] for t in trio), df)
 
 
 def run_formats(desc, ctx):
